@@ -466,6 +466,11 @@ int main(int argc, char** argv)
                 stretched.push_back(x);
             }
         }
+        // ramp: EVERY number of occurrences 1..1100 of a one-character pattern (a complete range: a chunk of 100 or 1000
+        // occurrences, or any other threshold below 1100, is inside)
+        if (!a.asan())
+            for (size_t n = 18; n <= 1100; n++)
+                stretched.push_back(std::string(n, 'a'));
         n_stretched = stretched.size();
         strings.insert(strings.end(), stretched.begin(), stretched.end());
     }
